@@ -501,6 +501,8 @@ var jsCorpus = &corpus{
 		"x = (((a)));",
 		"x = [(a), (b) => c, (d)];",
 		"f((a), (b, c) => d, e<F>(g));",
+		// no explicit semicolons: automatic semicolon insertion
+		"a", "a = b", "f(a)", "x++", "let q = 1", "return_ = (a) => a", "y = a\n+ b",
 	},
 }
 
